@@ -474,6 +474,15 @@ def judge(ctx, r, stats):
             stats["kind:" + k] = stats.get("kind:" + k, 0) + 1
     # (a) impl == M
     wild = False
+    if cls and "/PANIC:" in impl:
+        # inside an open class the real VM may panic while REPORTING an uncaught exception (runtime_error follows the
+        # stale error position of a discarded frame; error_ip is not state of M) and the harness loses the trace
+        stats["impl_panic_in_class"] = stats.get("impl_panic_in_class", 0) + 1
+        stats["known:" + cls] = stats.get("known:" + cls, 0) + 1
+        if not any(v.get("known_class") == cls for v in ctx.violations):
+            ctx.violation("the VM panics inside the open class " + cls, input=r["src"], expected=spec, actual=impl,
+                          known_class=cls, wire=r["wire"])
+        return
     if r["mtrace"] is not None:
         diff, n, wild = compare_trace(r["mtrace"], itrace)
         stats["steps"] += n
